@@ -171,6 +171,9 @@ type scenario struct {
 	// (on its first run); the submitters Subs are launched by the director's `sub` ops only.
 	Life     []lifeOp `json:"life,omitempty"`
 	StopSubs [][]int  `json:"stopsubs,omitempty"`
+	// class errchan (child process): an error reporting channel of capacity ErrCh-1 is installed through
+	// modules.SetErrorReportingChannel before the scenario runs, and nobody reads it (0: no channel, as everywhere else)
+	ErrCh int `json:"errch,omitempty"`
 }
 
 // lifeOp is one step of the director of a lifecycle scenario.
@@ -685,6 +688,10 @@ func sleepUs(us int) {
 
 func runScenario(sc *scenario) *runResult {
 	res := &runResult{shutMs: -1}
+	if sc.ErrCh > 0 && os.Getenv("HX_C15_CHILD") != "" {
+		// the application's consumer of module errors is not keeping up: a channel that is full after ErrCh-1 reports
+		modules.SetErrorReportingChannel(make(chan *modules.ModuleError, sc.ErrCh-1))
+	}
 	modules.SetMaxConcurrentMicroTasks(sc.Lim)
 	_, thr := modules.VerifMicroTasks()
 	res.thr = int64(thr)
@@ -970,6 +977,8 @@ func runScenario(sc *scenario) *runResult {
 	hangAfter := 20 * time.Second
 	if len(sc.Life) > 0 {
 		hangAfter = 60 * time.Second // stops that wait out a timeout of some seconds are reported, not cut off
+	} else if sc.Class == "errchan" {
+		hangAfter = 12 * time.Second // a dozen microtasks of at most a few ms each, in a process of their own
 	}
 	select {
 	case <-allDone:
@@ -1292,18 +1301,19 @@ func (execT) Do(line string) string {
 // monitor: the property statement, read off the scn and h lines only
 
 const (
-	sigLimit    = "C15:limit-exceeded-before-any-expiry"
-	sigLimitSig = "C15:limit-exceeded:signal-variants-with-maxdelay-0" // recorded finding (props/C15.findings.json)
-	sigOnce     = "C15:function-not-executed-exactly-once"
-	sigErr      = "C15:blocking-variant-returned-wrong-error"
-	sigCount    = "C15:global-count-not-zero-after-quiescence"
-	sigMod      = "C15:module-count-not-zero-after-quiescence"
-	sigSettle   = "C15:scheduler-not-settled-after-all-finished"
-	sigWake     = "C15:scheduler-left-waiting-without-token"
-	sigStop     = "C15:shutdown-held-up-after-all-finished"
-	sigCrash    = "C15:start-variant-on-nil-module-crashes-the-process"
-	sigHang     = "C15:submitted-microtasks-never-returned"
-	sigModStop  = "C15:module-stop-held-up-after-all-finished"
+	sigLimit      = "C15:limit-exceeded-before-any-expiry"
+	sigLimitSig   = "C15:limit-exceeded:signal-variants-with-maxdelay-0" // recorded finding (props/C15.findings.json)
+	sigOnce       = "C15:function-not-executed-exactly-once"
+	sigErr        = "C15:blocking-variant-returned-wrong-error"
+	sigCount      = "C15:global-count-not-zero-after-quiescence"
+	sigMod        = "C15:module-count-not-zero-after-quiescence"
+	sigSettle     = "C15:scheduler-not-settled-after-all-finished"
+	sigWake       = "C15:scheduler-left-waiting-without-token"
+	sigStop       = "C15:shutdown-held-up-after-all-finished"
+	sigCrash      = "C15:start-variant-on-nil-module-crashes-the-process"
+	sigHang       = "C15:submitted-microtasks-never-returned"
+	sigPanicNoRet = "C15:blocking-variant-never-returned-after-panic"
+	sigModStop    = "C15:module-stop-held-up-after-all-finished"
 )
 
 func effDelay(t taskSpec) time.Duration {
@@ -1359,6 +1369,18 @@ func monitor(c hxlib.Case, outs []string) []hxlib.Violation {
 	if lim < 2 {
 		lim = 2
 	}
+	fnEnded, returned := map[int]bool{}, map[int]bool{}
+	for _, l := range c.Lines {
+		if f := strings.Fields(l); len(f) >= 3 && f[0] == "h" && (f[1] == "fnend" || f[1] == "ret") {
+			if tid, err := strconv.Atoi(f[2]); err == nil {
+				if f[1] == "fnend" {
+					fnEnded[tid] = true
+				} else {
+					returned[tid] = true
+				}
+			}
+		}
+	}
 	for _, l := range c.Lines {
 		if !strings.HasPrefix(l, "h ") {
 			continue
@@ -1368,6 +1390,13 @@ func monitor(c hxlib.Case, outs []string) []hxlib.Violation {
 			return []hxlib.Violation{{Sig: sigCrash, What: "the process running the scenario died: " + strings.Join(f[4:], " "), Lines: c.Lines}}
 		}
 		if f[1] == "hang" {
+			// which clause: a blocking call whose function had ended by a panic and that never came back is "its error
+			// is returned to the caller of the blocking variants"; anything else is the general report
+			for tid, t := range sc.Tasks {
+				if t.Var == 0 && t.Out == 2 && t.Mod >= 0 && fnEnded[tid] && !returned[tid] {
+					return []hxlib.Violation{{Sig: sigPanicNoRet, What: fmt.Sprintf("task %d (%s, prio %d): the function panicked, yet the blocking call had not returned %s later (error reporting channel: %s); nothing was returned to the caller", tid, "Run*MicroTask", t.Prio, "12 s / 20 s", errChDesc(sc.ErrCh)), Lines: c.Lines}}
+				}
+			}
 			return []hxlib.Violation{{Sig: sigHang, What: "long after submission (20 s; lifecycle scenarios: 20 s at a quiescence point / 60 s overall) not every submitted microtask had been executed and had returned (max delays of one hour: nothing was admitted any more, or a function was never run)", Lines: c.Lines}}
 		}
 		if f[1] == "final" {
@@ -1676,6 +1705,60 @@ func genScenario(r *hxlib.Run, class string) *scenario {
 		}
 	case 4: // slow scheduler loop, fast finishers
 		sc.Force.Prob["sched-loop"] = 50 + rng.Intn(51)
+	}
+	return sc
+}
+
+func errChDesc(n int) string {
+	if n <= 0 {
+		return "none installed"
+	}
+	return fmt.Sprintf("capacity %d, nobody reading", n-1)
+}
+
+// errChanScenario: class errchan. The application has installed an error reporting channel (capacity 0..2) and is not
+// reading it; more microtask functions panic than the channel holds — Run* and Start* variants of every priority,
+// next to healthy / failing / signalled neighbours. What the property says about a panicking microtask (error back to
+// the blocking caller, counts zero again, scheduler settled) does not depend on anybody consuming module errors.
+func errChanScenario(r *hxlib.Run) *scenario {
+	rng := r.Rng
+	sc := genScenario(r, "noexpiry")
+	sc.Class = "errchan"
+	sc.ErrCh = 1 + rng.Intn(3)
+	if len(sc.Tasks) > 14 {
+		sc.Tasks = sc.Tasks[:14]
+	}
+	for len(sc.Tasks) < sc.ErrCh+2 {
+		sc.Tasks = append(sc.Tasks, taskSpec{Prio: rng.Intn(3), Var: rng.Intn(2), Mod: rng.Intn(3), DelayMs: -1, RunUs: rng.Intn(500)})
+	}
+	// at least capacity+2 panicking functions (>= 2), the first of them a blocking call
+	want := sc.ErrCh + 1 + rng.Intn(3)
+	have := 0
+	for _, i := range rng.Perm(len(sc.Tasks)) {
+		t := &sc.Tasks[i]
+		if have >= want {
+			break
+		}
+		if t.Mod < 0 {
+			t.Mod = rng.Intn(3)
+		}
+		if t.Var == 2 {
+			t.Var, t.Dones, t.Conc = rng.Intn(2), 0, false
+		}
+		if have == 0 {
+			t.Var = 0
+		}
+		t.Out, t.Err = 2, 0
+		have++
+	}
+	nSubs := 1 + rng.Intn(4)
+	if nSubs > len(sc.Tasks) {
+		nSubs = len(sc.Tasks)
+	}
+	sc.Subs = make([][]int, nSubs)
+	for i := range sc.Tasks {
+		k := rng.Intn(nSubs)
+		sc.Subs[k] = append(sc.Subs[k], i)
 	}
 	return sc
 }
@@ -2195,7 +2278,7 @@ func gen(r *hxlib.Run, emit func(hxlib.Case)) {
 		if len(sc.Life) > 0 && lifeBroken {
 			return // an earlier lifecycle scenario hung or did not settle: each further one would take as long to say the same
 		}
-		if sc.Class == "shutdown" || sc.Class == "nilstart" || len(sc.Life) > 0 {
+		if sc.Class == "shutdown" || sc.Class == "nilstart" || sc.Class == "errchan" || len(sc.Life) > 0 {
 			var err error
 			lines, err = runInChild(sc)
 			if err != nil {
@@ -2277,6 +2360,12 @@ func gen(r *hxlib.Run, emit func(hxlib.Case)) {
 		collectAsync(true)
 		return
 	}
+	if os.Getenv("HX_C15_ONLY") == "errchan" { // debugging aid
+		for i := 0; i < 12; i++ {
+			emitScn(errChanScenario(r))
+		}
+		return
+	}
 	if os.Getenv("HX_C15_ONLY") == "life" { // debugging aid
 		for i := 0; i < 12; i++ {
 			emitScn(lifeScenario(r, "modstop"))
@@ -2301,6 +2390,7 @@ func gen(r *hxlib.Run, emit func(hxlib.Case)) {
 	nilstarts := r.Budget(8, 40)
 	modstops := r.Budget(14, 80)
 	stoptmos := r.Budget(14, 80)
+	errchans := r.Budget(24, 160)
 	for i := 0; i < nScn && time.Now().Before(deadline) && !stop; i++ {
 		class := "noexpiry"
 		switch x := r.Rng.Intn(100); {
@@ -2322,6 +2412,10 @@ func gen(r *hxlib.Run, emit func(hxlib.Case)) {
 		if i%60 == 41 && stoptmos > 0 {
 			stoptmos--
 			emitScn(lifeScenario(r, "stoptmo"))
+		}
+		if i%30 == 2 && errchans > 0 {
+			errchans--
+			emitScn(errChanScenario(r))
 		}
 		if i%40 == 7 && shutdowns > 0 {
 			shutdowns--
@@ -2350,7 +2444,7 @@ func main() {
 	}
 	hxlib.Main(&hxlib.Harness{
 		Prop:     "C15",
-		Rule:     "a case is one scenario (limit 2..8 or below the minimum, 1..16 submitting goroutines, 1..120 microtasks of every priority and variant incl. nil module, run times 0..3ms, nil/error/panic outcomes, 1..4 done() calls sequential or concurrent, max delays never/default/1..3ms, forced delays at the verif yield points, shutdown in a child process (a third of its Run*/Start* functions watch the module context and return when the shutdown cancels it), queue flood; error outcomes draw their value from a dictionary of 12 (plain, context.Canceled, errors wrapping it once/twice/joined, context.DeadlineExceeded plain and wrapped, modules.ErrCleanExit, wrapped modules.ErrRestartNow, typed nil pointer, non-panic *modules.ModuleError, own type with an Is method claiming context.Canceled) and the caller of a blocking variant must get that very value (or an error that has it in its chain and its message in its text); class long-delay-held (child processes running next to the rest, 3.5 s of real time each): all slots held for 3.35..3.6 s — longer than both default max delays — while 3..6 medium/low microtasks of every variant submitted with explicit max delays of 10..20 s wait (every other one additionally with queue capacity + 30..70 Start* requests of each priority, so that the surplus waits in the enqueue phase): nothing may start before a slot frees; module lifecycle scenarios in child processes with module management: class modstop = the limit used up by long microtasks (one of them possibly of the stopping module — a blocking call that returns a dictionary error when the stop cancels its context), then medium/low microtasks submitted by the stop function of a stopping module and/or from outside to a stopping or stopped-and-not-restarted module, restart, more traffic; class stoptmo = stop timeout 50..100 ms, microtasks of any priority/variant running before the stop or started by the stop function outlive it, 0..2 blocking Run* calls of any priority in flight when the stop begins return a dictionary error once their context is cancelled, optional restart while they are in flight, quiescence, a further stop of the idle module under a 3 s timeout, restart, optional shutdown) executed on the real scheduler; its hook trace is replayed through the Lean model (acceptor: global counter and each module's counter compared at every bracketed operation, every task and every module followed individually, the stop check's read of the module counter compared with the model) and the monitor checks limit / exactly-once / returned error / zero counters (at the end and at every mid-scenario quiescence) / settled scheduler / module stops and shutdown not held up on the harness's own observations; non-trivial = at least two tasks and at least one clearance granted (or expiries); distinct = different scenario or different interleaving (hash of the whole trace)",
+		Rule:     "a case is one scenario (limit 2..8 or below the minimum, 1..16 submitting goroutines, 1..120 microtasks of every priority and variant incl. nil module, run times 0..3ms, nil/error/panic outcomes, 1..4 done() calls sequential or concurrent, max delays never/default/1..3ms, forced delays at the verif yield points, shutdown in a child process (a third of its Run*/Start* functions watch the module context and return when the shutdown cancels it), queue flood; error outcomes draw their value from a dictionary of 12 (plain, context.Canceled, errors wrapping it once/twice/joined, context.DeadlineExceeded plain and wrapped, modules.ErrCleanExit, wrapped modules.ErrRestartNow, typed nil pointer, non-panic *modules.ModuleError, own type with an Is method claiming context.Canceled) and the caller of a blocking variant must get that very value (or an error that has it in its chain and its message in its text); class long-delay-held (child processes running next to the rest, 3.5 s of real time each): all slots held for 3.35..3.6 s — longer than both default max delays — while 3..6 medium/low microtasks of every variant submitted with explicit max delays of 10..20 s wait (every other one additionally with queue capacity + 30..70 Start* requests of each priority, so that the surplus waits in the enqueue phase): nothing may start before a slot frees; module lifecycle scenarios in child processes with module management: class modstop = the limit used up by long microtasks (one of them possibly of the stopping module — a blocking call that returns a dictionary error when the stop cancels its context), then medium/low microtasks submitted by the stop function of a stopping module and/or from outside to a stopping or stopped-and-not-restarted module, restart, more traffic; class stoptmo = stop timeout 50..100 ms, microtasks of any priority/variant running before the stop or started by the stop function outlive it, 0..2 blocking Run* calls of any priority in flight when the stop begins return a dictionary error once their context is cancelled, optional restart while they are in flight, quiescence, a further stop of the idle module under a 3 s timeout, restart, optional shutdown; class errchan (child processes) = an error reporting channel of capacity 0..2 installed through SetErrorReportingChannel that nobody reads, up to 14 microtasks of which capacity+2..capacity+4 (Run* and Start* of every priority, the first a blocking call) panic: a panicking blocking call that has not returned after 12 s is reported under the returned-error clause) executed on the real scheduler; its hook trace is replayed through the Lean model (acceptor: global counter and each module's counter compared at every bracketed operation, every task and every module followed individually, the stop check's read of the module counter compared with the model) and the monitor checks limit / exactly-once / returned error / zero counters (at the end and at every mid-scenario quiescence) / settled scheduler / module stops and shutdown not held up on the harness's own observations; non-trivial = at least two tasks and at least one clearance granted (or expiries); distinct = different scenario or different interleaving (hash of the whole trace)",
 		Generate: gen,
 		NewExec:  func(*hxlib.Run) hxlib.Exec { return execT{} },
 		Monitor:  monitor,
